@@ -542,8 +542,6 @@ package cache
 //@ fn cstr(c int) string
 //@ smt (assert (forall ((s Str)) (! (= (cstr (cid s)) s) :pattern ((cid s)))))
 //@ macro hv(h) = cstr(entHdr(cur(), h))
-// none of the repeated headers of the entry in hand had a line on the response when the handler started
-//@ macro cleanBefore() = forallS(g, entHdrHas(cur(), g) && multi(hv(g)) ==> old(hdrCnt[g]) == 0)
 //@ macro invalidated() = called(Config.CacheInvalidator) && last(Config.CacheInvalidator)
 //@ macro cacheUntouched() = !called(@sync.(*RWMutex).Lock) && !called((*manager).get) && !called((*manager).getRaw) && !called((*manager).set) && !called((*manager).setRaw) && !called((*indexedHeap).put) && !called((*indexedHeap).remove) && !called((*indexedHeap).removeFirst) && !called((*indexedHeap).removeKey)
 // the heap slot that accounts for entry en
@@ -629,36 +627,42 @@ package cache
 //@   ensures hit-status-and-type: served() ==> outStatusSet && outStatus == entStatus(cur()) && outCtypeSet && outCtype == entCtype(cur())
 //@   ensures hit-encoding: served() && entCencLen(cur()) > 0 && !entHdrHas(cur(), "Content-Encoding") ==> outHdrSet["Content-Encoding"] && outHdr["Content-Encoding"] == entCenc(cur())
 //   (stored headers: hv(h) is the stored value of name h. A value without line feed is ONE line and is written with
-//    SetBytesV (ghost outHdr, mw_C14.spec); the values of a repeated name are kept in one entry, one per line: the hit removes
-//    the lines of that name and adds exactly the stored ones, in the stored order (list model hdrCnt/hdrVal of the
-//    response header, mw_C17.spec; nlCount/nlPiece: the pieces between the line feeds). fasthttp's Del moves the LAST line
-//    of the whole header into the place of a removed one, so the order of the lines added before is only kept when Del
-//    finds nothing to remove: when none of the repeated stored names has a line on the response before the hit (earlier
-//    middleware). The number of lines is exact in any case.)
-//@   ensures hit-stored-headers: served() ==> forallS(h, entHdrHas(cur(), h) && !multi(hv(h)) ==> outHdrSet[h] && outHdr[h] == entHdr(cur(), h))
-//@   ensures hit-repeated-header-one-line-per-stored-value: served() ==> forallS(h, entHdrHas(cur(), h) && multi(hv(h)) ==> hdrCnt[h] == nlCount(hv(h)))
-//@   ensures hit-repeated-header-adds-exactly-the-stored-lines-in-order: served() && forallS(g, entHdrHas(cur(), g) && multi(hv(g)) ==> old(hdrCnt[g]) == 0) ==>
+//    SetBytesV (ghost outHdr, mw_C14.spec); the values of a repeated name are kept in one entry, one per line. fasthttp's Del
+//    moves the LAST line of the whole header into the place of a removed one, so a Del after an Add can reorder the lines that
+//    were added. The hit therefore works in two passes: first the lines the repeated stored names already have on the response
+//    (earlier middleware) are removed, ALL of them before any line is added; then every repeated name gets one line per stored
+//    value, in the stored order (list model hdrCnt/hdrVal of the response header, mw_C17.spec; nlCount/nlPiece: the pieces
+//    between the line feeds). No Del runs after the first Add, so nothing is moved: count and order hold unconditionally.)
+//@   ensures hit-replays-the-lines-of-a-repeated-header-in-the-stored-order: served() ==>
 //@ ..   forallS(h, entHdrHas(cur(), h) && multi(hv(h)) ==> forallI(j, 0 <= j && j < nlCount(hv(h)) ==> hdrVal[h][j] == nlPiece(hv(h), j)))
+//@   ensures hit-repeated-header-one-line-per-stored-value: served() ==> forallS(h, entHdrHas(cur(), h) && multi(hv(h)) ==> hdrCnt[h] == nlCount(hv(h)))
+//@   ensures hit-stored-headers: served() ==> forallS(h, entHdrHas(cur(), h) && !multi(hv(h)) ==> outHdrSet[h] && outHdr[h] == entHdr(cur(), h))
 //@   atcall @strconv.FormatUint: max-age-is-time-to-expiry: i == entExp(cur()) - ts && entExp(cur()) > ts
 //@   atcall @fiber.Ctx.Set: hit-marked-only-when-served: val == "hit" ==> served()
-//   loop 1: over the stored headers; loop 2: over the lines of one repeated header
+//   loop 1: first pass over the stored headers (the repeated ones lose the lines they have); loop 2: second pass (every
+//   header is written); loop 3: over the lines of one repeated header. seen(h, n): h was visited by the n-th map range.
 //@   loop 1
-//@     invariant still-locked: held(mux) && served() && !called(@fiber.Ctx.Next)
+//@     invariant still-locked: held(mux) && served() && !called(@fiber.Ctx.Next) && !called(@fasthttp.(*ResponseHeader).AddBytesV)
 //@     invariant entry-in-hand: cur() != 0 && itemIs(e, cur()) && hdrValuesExist(e)
-//@     invariant visited-headers-written: forallS(h, seen(h) && !multi(hv(h)) ==> outHdrSet[h] && outHdr[h] == entHdr(cur(), h))
-//@     invariant visited-repeated-headers-line-count: forallS(h, seen(h) && multi(hv(h)) ==> hdrCnt[h] == nlCount(hv(h)))
-//@     invariant visited-repeated-headers-lines-in-order: cleanBefore() ==> forallS(h, seen(h) && multi(hv(h)) ==> forallI(j, 0 <= j && j < nlCount(hv(h)) ==> hdrVal[h][j] == nlPiece(hv(h), j)))
-//@     invariant unvisited-names-untouched: forallS(g, !seen(g) ==> hdrCnt[g] == old(hdrCnt[g]))
+//@     invariant repeated-headers-lose-their-lines-before-any-line-is-added: forallS(h, seen(h, 1) && multi(hv(h)) ==> hdrCnt[h] == 0)
 //@     invariant encoding-kept: entCencLen(cur()) > 0 && !entHdrHas(cur(), "Content-Encoding") ==> outHdrSet["Content-Encoding"] && outHdr["Content-Encoding"] == entCenc(cur())
 //@   loop 2
 //@     invariant still-locked: held(mux) && served() && !called(@fiber.Ctx.Next)
 //@     invariant entry-in-hand: cur() != 0 && itemIs(e, cur()) && hdrValuesExist(e)
-//@     invariant in-a-repeated-header: seen(k) && entHdrHas(cur(), k) && str(v) == hv(k) && multi(hv(k))
+//@     invariant visited-headers-written: forallS(h, seen(h, 2) && !multi(hv(h)) ==> outHdrSet[h] && outHdr[h] == entHdr(cur(), h))
+//@     invariant visited-repeated-headers-line-count: forallS(h, seen(h, 2) && multi(hv(h)) ==> hdrCnt[h] == nlCount(hv(h)))
+//@     invariant a-hit-replays-the-lines-of-a-repeated-header-in-the-stored-order: forallS(h, seen(h, 2) && multi(hv(h)) ==> forallI(j, 0 <= j && j < nlCount(hv(h)) ==> hdrVal[h][j] == nlPiece(hv(h), j)))
+//@     invariant unvisited-repeated-headers-have-no-line-yet: forallS(g, !seen(g, 2) && entHdrHas(cur(), g) && multi(hv(g)) ==> hdrCnt[g] == 0)
+//@     invariant encoding-kept: entCencLen(cur()) > 0 && !entHdrHas(cur(), "Content-Encoding") ==> outHdrSet["Content-Encoding"] && outHdr["Content-Encoding"] == entCenc(cur())
+//@   loop 3
+//@     invariant still-locked: held(mux) && served() && !called(@fiber.Ctx.Next)
+//@     invariant entry-in-hand: cur() != 0 && itemIs(e, cur()) && hdrValuesExist(e)
+//@     invariant in-a-repeated-header: seen(k, 2) && entHdrHas(cur(), k) && str(v) == hv(k) && multi(hv(k))
 //@     invariant lines-of-the-stored-value: len(last(@bytes.Split)) == nlCount(hv(k)) && forall(j, 0, len(last(@bytes.Split)), str(last(@bytes.Split)[j]) == nlPiece(hv(k), j))
 //@     invariant lines-added-so-far: 0 <= rangeindex + 1 && rangeindex + 1 <= len(last(@bytes.Split)) && hdrCnt[k] == rangeindex + 1 && forallI(j, 0 <= j && j < rangeindex + 1 ==> hdrVal[k][j] == nlPiece(hv(k), j))
-//@     invariant visited-repeated-headers-line-count: forallS(h, seen(h) && h != k && multi(hv(h)) ==> hdrCnt[h] == nlCount(hv(h)))
-//@     invariant visited-repeated-headers-lines-in-order: cleanBefore() ==> forallS(h, seen(h) && h != k && multi(hv(h)) ==> forallI(j, 0 <= j && j < nlCount(hv(h)) ==> hdrVal[h][j] == nlPiece(hv(h), j)))
-//@     invariant unvisited-names-untouched: forallS(g, !seen(g) ==> hdrCnt[g] == old(hdrCnt[g]))
+//@     invariant visited-repeated-headers-line-count: forallS(h, seen(h, 2) && h != k && multi(hv(h)) ==> hdrCnt[h] == nlCount(hv(h)))
+//@     invariant a-hit-replays-the-lines-of-a-repeated-header-in-the-stored-order: forallS(h, seen(h, 2) && h != k && multi(hv(h)) ==> forallI(j, 0 <= j && j < nlCount(hv(h)) ==> hdrVal[h][j] == nlPiece(hv(h), j)))
+//@     invariant unvisited-repeated-headers-have-no-line-yet: forallS(g, !seen(g, 2) && entHdrHas(cur(), g) && multi(hv(g)) ==> hdrCnt[g] == 0)
 //
 //   -- expired or invalidated entry: it leaves the cache and exactly its heap slot is released
 //   (deleteKey has already run here, so the entry is identified through the heap: the idx handed to remove must be
@@ -704,7 +708,7 @@ package cache
 //   (eviction order: the entry that goes is one with the nearest expiry of all entries the heap holds)
 //@   atcall (*indexedHeap).removeFirst: evicts-nearest-expiry: forall(k, 0, len(heap.entries), isPos(k) ==> heap.entries[0].exp <= heap.entries[k + 0].exp)
 //@   atcall @fiber.Ctx.Next: origin-outside-lock: !held(mux)
-//@   loop 3
+//@   loop 4
 //@     invariant evicting-under-lock: held(mux) && cfg.MaxBytes > 0 && bodySize <= cfg.MaxBytes && called(@fiber.Ctx.Next) && !served()
 //@     invariant heap-wf: wfHeap(heap)
 //@     invariant heap-sum-is-sum-of-entry-bytes: sumInv(heap)
